@@ -401,47 +401,38 @@ func runC07(e *Engine, r *Report) {
 			if c.State != "leader" || c.Type != "Propose" {
 				continue
 			}
-			fn := c.Fn
-			sets := e.SitesIn(fn, setP)
-			r.check(len(sets) > 0, "GD-pending-cc", "leader Propose handler sets the pending flag", e.pos(fn.Pos()), "present", "the leader no longer records that a config change is pending")
-			for _, s := range sets {
-				r.guard("GD-pending-cc", "setPendingConfigChange in "+fname(fn), s.(ssa.Instruction),
-					reqCmp("entry type == ConfigChangeEntry", "==", fieldV(entType), constV(ccEntry)))
+			handler := c.Fn
+			// the admission step may sit in the handler or in a helper it calls per entry
+			var admit []*ssa.Function
+			for _, g := range e.regionOf(handler, 2) {
+				if len(e.SitesIn(g, setP)) > 0 {
+					admit = append(admit, g)
+				}
 			}
-			// every path from the ConfigChangeEntry edge to appendEntries passes setPendingConfigChange
-			forEachInstr(fn, func(in ssa.Instruction) {
-				ifi, ok := in.(*ssa.If)
-				if !ok || !hasCmpFact([]Fact{{ifi.Cond, true}}, "==", fieldV(entType), constV(ccEntry)) {
-					return
-				}
-				tsucc := in.Block().Succs[0]
-				if len(tsucc.Instrs) == 0 {
-					return
-				}
-				res := e.findPath(fn, tsucc.Instrs[0], func(x ssa.Instruction) bool {
-					cc, ok := x.(*ssa.Call)
-					return ok && e.CallsTo(cc, appendE)
-				}, func(x ssa.Instruction) bool {
-					cc, ok := x.(*ssa.Call)
-					return ok && e.CallsTo(cc, setP)
-				}, nil)
-				first := tsucc.Instrs[0]
-				if cc, ok := first.(*ssa.Call); ok && e.CallsTo(cc, setP) {
-					res.Found = false
-				}
-				r.check(!res.Found, "GD-pending-cc", "config change entry reaches appendEntries only after the flag is set", e.ipos(in),
-					"every proposed config change marks the leader as having a pending change", "a config change entry can be appended without setting the pending flag")
-			})
-			// the second pending change is replaced by an empty application entry:
-			// whenever hasPendingConfigChange() is true for a config change entry,
-			// the element is overwritten before the flag is set / the entries are appended
+			r.check(len(admit) > 0, "GD-pending-cc", "leader Propose handler sets the pending flag", e.pos(handler.Pos()), "present", "the leader no longer records that a config change is pending")
 			appC := e.Const("raftpb", "ApplicationEntry")
 			isReplace := func(in ssa.Instruction) bool {
 				st, ok := in.(*ssa.Store)
 				if !ok {
 					return false
 				}
-				if _, isIdx := st.Addr.(*ssa.IndexAddr); !isIdx {
+				// in-place form: the Type field of the element is overwritten with ApplicationEntry
+				if fa, ok := st.Addr.(*ssa.FieldAddr); ok && constV(appC)(st.Val) {
+					if f, _, ok := fieldOfAddr(fa); ok && f == entType {
+						switch fa.X.(type) {
+						case *ssa.IndexAddr, *ssa.Parameter:
+							return true
+						}
+					}
+				}
+				// the element of the proposed slice: m.Entries[i] = ... or *e = ... through a pointer to it
+				switch a := st.Addr.(type) {
+				case *ssa.IndexAddr:
+				case *ssa.Parameter:
+				case *ssa.Alloc:
+					_ = a
+					return false
+				default:
 					return false
 				}
 				ld, ok := st.Val.(*ssa.UnOp)
@@ -460,35 +451,79 @@ func runC07(e *Engine, r *Report) {
 				return false
 			}
 			replaced := false
-			forEachInstr(fn, func(in ssa.Instruction) {
-				ifi, ok := in.(*ssa.If)
-				if !ok || !pendingV(ifi.Cond) {
-					return
+			for _, fn := range admit {
+				fn := fn
+				isEnd := func(x ssa.Instruction) bool {
+					if cc, ok := x.(*ssa.Call); ok && e.CallsTo(cc, appendE) {
+						return true
+					}
+					return fn != handler && isReturn(x)
 				}
-				g2, _ := e.guardedOnAllPaths(in, reqCmp("", "==", fieldV(entType), constV(ccEntry)))
-				if !g2 {
-					return
+				for _, s := range e.SitesIn(fn, setP) {
+					r.guard("GD-pending-cc", "setPendingConfigChange in "+fname(fn), s.(ssa.Instruction),
+						reqCmp("entry type == ConfigChangeEntry", "==", fieldV(entType), constV(ccEntry)))
 				}
-				tsucc := in.Block().Succs[0]
-				if len(tsucc.Instrs) == 0 {
-					return
-				}
-				hit := false
-				if isReplace(tsucc.Instrs[0]) {
-					hit = true
-				}
-				res := e.findPath(fn, tsucc.Instrs[0], func(x ssa.Instruction) bool {
-					cc, ok := x.(*ssa.Call)
-					return ok && (e.CallsTo(cc, setP) || e.CallsTo(cc, appendE))
-				}, isReplace, nil)
-				if hit || !res.Found {
-					replaced = true
-				} else {
-					replaced = false
-					r.bad("GD-pending-cc", "pending config change is always replaced", e.ipos(in), "with a change already pending, a path reaches the append without replacing the new config change entry")
-				}
-			})
-			r.check(replaced, "GD-pending-cc", "a second pending config change is replaced by an empty entry", e.pos(fn.Pos()),
+				// every path from the ConfigChangeEntry edge to appendEntries (or out of the helper) passes setPendingConfigChange
+				forEachInstr(fn, func(in ssa.Instruction) {
+					ifi, ok := in.(*ssa.If)
+					if !ok {
+						return
+					}
+					var tsucc *ssa.BasicBlock
+					if hasCmpFact([]Fact{{ifi.Cond, true}}, "==", fieldV(entType), constV(ccEntry)) {
+						tsucc = in.Block().Succs[0]
+					} else if hasCmpFact([]Fact{{ifi.Cond, false}}, "==", fieldV(entType), constV(ccEntry)) {
+						tsucc = in.Block().Succs[1]
+					}
+					if tsucc == nil || len(tsucc.Instrs) == 0 {
+						return
+					}
+					isSet := func(x ssa.Instruction) bool {
+						cc, ok := x.(*ssa.Call)
+						return ok && e.CallsTo(cc, setP)
+					}
+					res := e.findPath(fn, tsucc.Instrs[0], isEnd, isSet, nil)
+					if isSet(tsucc.Instrs[0]) {
+						res.Found = false
+					} else if isEnd(tsucc.Instrs[0]) {
+						res.Found = true
+					}
+					r.check(!res.Found, "GD-pending-cc", "config change entry reaches appendEntries only after the flag is set", e.ipos(in),
+						"every proposed config change marks the leader as having a pending change", "a config change entry can be appended without setting the pending flag")
+				})
+				// the second pending change is replaced by an empty application entry:
+				// whenever hasPendingConfigChange() is true for a config change entry,
+				// the element is overwritten before the flag is set / the entries are appended
+				forEachInstr(fn, func(in ssa.Instruction) {
+					ifi, ok := in.(*ssa.If)
+					if !ok || !pendingV(ifi.Cond) {
+						return
+					}
+					g2, _ := e.guardedOnAllPaths(in, reqCmp("", "==", fieldV(entType), constV(ccEntry)))
+					if !g2 {
+						return
+					}
+					tsucc := in.Block().Succs[0]
+					if len(tsucc.Instrs) == 0 {
+						return
+					}
+					hit := false
+					if isReplace(tsucc.Instrs[0]) {
+						hit = true
+					}
+					res := e.findPath(fn, tsucc.Instrs[0], func(x ssa.Instruction) bool {
+						cc, ok := x.(*ssa.Call)
+						return (ok && e.CallsTo(cc, setP)) || isEnd(x)
+					}, isReplace, nil)
+					if hit || !res.Found {
+						replaced = true
+					} else {
+						replaced = false
+						r.bad("GD-pending-cc", "pending config change is always replaced", e.ipos(in), "with a change already pending, a path reaches the append without replacing the new config change entry")
+					}
+				})
+			}
+			r.check(replaced, "GD-pending-cc", "a second pending config change is replaced by an empty entry", e.pos(handler.Pos()),
 				"with a change already pending the new one is dropped and reported", "the leader no longer replaces a config change proposed while another one is pending")
 			// and on the not-pending path nothing overwrites the entry: covered by the guard above
 		}
@@ -519,19 +554,59 @@ func runC07(e *Engine, r *Report) {
 			r.check(dep, "GD-cc-outcome", "configChange passes handleConfigChange's outcome to the node", e.ipos(s), "the raft core is told applied/rejected as decided by the membership", "the outcome passed to the node no longer depends on handleConfigChange")
 		}
 	}
-	if ncc := r.need("(*dragonboat.node).ApplyConfigChange"); ncc != nil {
-		acc := e.Func("(*dragonboat.node).applyConfigChange")
-		for _, s := range e.SitesIn(ncc, acc) {
-			r.guard("GD-cc-outcome", "node.applyConfigChange (raft core update) in "+fname(ncc), s.(ssa.Instruction),
-				reqBool("rejected is false", func(v ssa.Value) bool { p, ok := v.(*ssa.Parameter); return ok && p.Name() == "rejected" }, false))
+	if ncc := r.need("(*dragonboat.node).ApplyConfigChange"); ncc != nil && len(ncc.Params) > 0 {
+		// the `rejected` flag: the last parameter of INode.ApplyConfigChange, or a
+		// parameter of a helper that receives it at every call
+		var isRejected func(v ssa.Value, d int) bool
+		isRejected = func(v ssa.Value, d int) bool {
+			p, ok := stripConv(v).(*ssa.Parameter)
+			if !ok {
+				return false
+			}
+			if p == ncc.Params[len(ncc.Params)-1] {
+				return true
+			}
+			if d == 0 || p.Parent() == nil {
+				return false
+			}
+			idx := -1
+			for i, q := range p.Parent().Params {
+				if q == p {
+					idx = i
+				}
+			}
+			sites := e.CallerSites(p.Parent())
+			if idx < 0 || len(sites) == 0 {
+				return false
+			}
+			for _, cs := range sites {
+				args := cs.Common().Args
+				if cs.Common().IsInvoke() || idx >= len(args) || !isRejected(args[idx], d-1) {
+					return false
+				}
+			}
+			return true
 		}
-	}
-	if cp := r.need("(*dragonboat.node).configChangeProcessed"); cp != nil {
+		rejV := func(v ssa.Value) bool { return isRejected(v, 2) }
+		acc := r.helper("(*dragonboat.node).applyConfigChange")
 		rej := e.Func("(*internal/raft.Peer).RejectConfigChange")
-		for _, s := range e.SitesIn(cp, rej) {
-			r.guard("GD-cc-outcome", "Peer.RejectConfigChange in "+fname(cp), s.(ssa.Instruction),
-				reqBool("rejected is true", func(v ssa.Value) bool { p, ok := v.(*ssa.Parameter); return ok && p.Name() == "rejected" }, true))
+		na, nr := 0, 0
+		for _, g := range e.regionOf(ncc, 2) {
+			if acc != nil {
+				for _, s := range e.SitesIn(g, acc) {
+					na++
+					r.guard("GD-cc-outcome", "node.applyConfigChange (raft core update) in "+fname(g), s.(ssa.Instruction),
+						reqBool("rejected is false", rejV, false))
+				}
+			}
+			for _, s := range e.SitesIn(g, rej) {
+				nr++
+				r.guard("GD-cc-outcome", "Peer.RejectConfigChange in "+fname(g), s.(ssa.Instruction),
+					reqBool("rejected is true", rejV, true))
+			}
 		}
+		r.floor("GD-cc-outcome-sites", nr, 1)
+		_ = na
 	}
 	borrow(e, r, "C08", "MPT-restore-replaces")
 	ruleAddressScanAllKinds(e, r)
